@@ -99,7 +99,15 @@ func Default() *Processor {
 }
 
 // GetCanonicalDocument returns canonized document of given json ld.
-func (p *Processor) GetCanonicalDocument(doc map[string]interface{}, opts ...Opts) ([]byte, error) {
+func (p *Processor) GetCanonicalDocument(doc map[string]interface{}, opts ...Opts) (canonical []byte, err error) {
+	// The JSON-LD library panics on some malformed documents (for instance a scalar where a term with a @graph
+	// container expects node objects): such a document cannot be canonized, which is an error of the document.
+	defer func() {
+		if r := recover(); r != nil {
+			canonical, err = nil, fmt.Errorf("failed to normalize JSON-LD document: %v", r)
+		}
+	}()
+
 	procOptions := prepareOpts(opts)
 
 	ldOptions := ld.NewJsonLdOptions("")
